@@ -1157,7 +1157,7 @@ class TopLevel:
                 if self.try_parse_class():
                     return
             if t.v == 'enum':
-                self.parse_enum()
+                self.parse_enum(cls=cls)
                 return
         self.parse_item_after_template(cls, None)
 
@@ -1217,7 +1217,7 @@ class TopLevel:
         p.next()
         return True
 
-    def parse_enum(self, typedef=False):
+    def parse_enum(self, typedef=False, cls=None):
         p = self.p
         p.expect('enum')
         scoped = False
@@ -1248,6 +1248,7 @@ class TopLevel:
             name = p.next().v
         p.accept(';')
         ed = EnumDef(name, items, scoped)
+        ed.cls = cls.name if cls is not None else None      # enclosing class of a nested enum (its enumerators are Class::item)
         if name:
             self.u.enums[name] = ed
             p.known_types.add(name)
